@@ -485,20 +485,22 @@ class Render:
         if k == "list":
             return "[%s]" % ", ".join(self.e(a) for a in x[1])
         if k == "blobnew":
-            return "%sPt { %s }" % (self.tq, ", ".join("%s: %s" % (f, self.e(v)) for f, v in x[1]))
+            return "%s { %s }" % (self.tyname("Pt"), ", ".join("%s: %s" % (f, self.e(v)) for f, v in x[1]))
         if k == "variant":
-            return "(%sEv.%s%s)" % (self.tq, x[1], "" if x[2] is None else " (%s)" % self.e(x[2]))
+            return "(%s.%s%s)" % (self.tyname("Ev"), x[1], "" if x[2] is None else " (%s)" % self.e(x[2]))
         if k == "ifx":
             return "(if %s do %s else do %s end)" % (self.e(x[1]), self.e(x[2]), self.e(x[3]))
         if k == "lambda":
             return self.lam(x, 0)
         raise ValueError(k)
 
-    tq = ""    # qualifier for the type names Pt / Ev (multi-file variants)
+    def tyname(self, nm):
+        """text of the type name Pt / Ev (multi-file layouts qualify it)"""
+        return nm
 
     def ty(self, t):
         if isinstance(t, tuple) and t[0] in ("blob", "enum"):
-            return self.tq + t[1]
+            return self.tyname(t[1])
         if isinstance(t, tuple) and t[0] == "list":
             return "[%s]" % self.ty(t[1])
         return ty_text(t)
@@ -936,4 +938,373 @@ def plant_violations(p, r, k=4):
             continue
         leak_visible = any(v is b for v in lpos[j][2])
         out.append((ss, i, b, leak_visible))
+    return out
+
+
+# ------------------------------------------------------------------------------------------------
+# multi-file layouts: a partition of the program's globals into files / folders and, for every pair
+# (importing module, imported module), an import style
+
+MOD_PATHS = ["/ma.sy", "/mb.sy", "/sub/mc.sy", "/sub/exports.sy", "/sub/deep/md.sy", "/lib/exports.sy", "/exports.sy"]
+EXT_PRINT = "print: fn *X -> void : external\n"
+
+
+def mod_dir(path):
+    return path.rsplit("/", 1)[0] + "/"
+
+
+def mod_stem(path):
+    """the implicit namespace name of `use <path>`"""
+    if path.endswith("/exports.sy"):
+        d = path[:-len("/exports.sy")]
+        return d.rsplit("/", 1)[-1] if d else None      # `use /` needs an alias
+    return path.rsplit("/", 1)[-1][:-3]
+
+
+def use_path_text(r, frm, to):
+    """a `use` path, written in file `frm`, that denotes file `to`: relative when `to` lies in the
+    directory of `frm` or below it (chosen at random then), else rooted"""
+    def strip(p):
+        if p.endswith("/exports.sy"):
+            return p[:-len("exports.sy")]                # trailing slash = folder
+        return p[:-3]
+    rooted = strip(to)                                   # "/sub/mc", "/sub/", "/"
+    d = mod_dir(frm)
+    if to.startswith(d) and r.random() < 0.6:
+        rel = strip(to)[len(d):]
+        if rel:
+            return rel
+    return rooted
+
+
+def item_refs(it):
+    """binders and type names ('Pt'/'Ev') an item refers to"""
+    refs = set()
+
+    def ty(t):
+        if isinstance(t, tuple):
+            if t[0] in ("blob", "enum"):
+                refs.add(t[1])
+            elif t[0] == "list":
+                ty(t[1])
+            elif t[0] == "fn":
+                for q in t[1]:
+                    ty(q)
+                if t[2] is not None:
+                    ty(t[2])
+
+    def walk(x):
+        if isinstance(x, tuple):
+            if x and x[0] == "var":
+                refs.add(x[1])
+            elif x and x[0] == "assign":
+                refs.add(x[1]); walk(x[3])
+            elif x and x[0] == "blobnew":
+                refs.add("Pt"); walk(x[1])
+            elif x and x[0] == "variant":
+                refs.add("Ev"); walk(x[2])
+            elif x and x[0] == "lambda":
+                for q in x[1]:
+                    ty(q.ty)
+                ty(x[3]); walk(x[2])
+            else:
+                for y in x:
+                    walk(y)
+        elif isinstance(x, list):
+            for y in x:
+                walk(y)
+    walk(it)
+    return refs
+
+
+STYLES = ["use", "use_as", "from", "from_as", "chain"]
+
+
+class Layout:
+    """files: path -> list of items; style[(frm, to)] in STYLES; main = '/main.sy'"""
+
+    def __init__(self, p, r, naming, nmods=None, styles=None, prelude=""):
+        self.p = p
+        self.n = naming
+        self.prelude = prelude
+        items = list(p.items)
+        k = nmods if nmods is not None else r.randint(1, 3)
+        paths = r.sample(MOD_PATHS, k)
+        self.paths = ["/main.sy"] + paths
+        self.home = {}       # binder / 'Pt' / 'Ev' -> path
+        self.items = {q: [] for q in self.paths}
+        for it in items:
+            if it[0] == "gdef" and getattr(it[1], "fixed", None) == "start":
+                q = "/main.sy"
+            else:
+                q = r.choice(self.paths)
+            self.items[q].append(it)
+            if it[0] == "gdef":
+                self.home[it[1]] = q
+            elif it[0] == "blob":
+                self.home["Pt"] = q
+            elif it[0] == "enum":
+                self.home["Ev"] = q
+        # which modules does each module refer to
+        self.refs = {q: {} for q in self.paths}   # frm -> to -> set of refs
+        for q in self.paths:
+            for it in self.items[q]:
+                for x in item_refs(it):
+                    h = self.home.get(x)
+                    if h is not None and h != q:
+                        self.refs[q].setdefault(h, set()).add(x)
+        self.style = {}
+        self.alias = {}
+        self.via = {}
+        self.extra_uses = {q: [] for q in self.paths}
+        for q in self.paths:
+            for h in sorted(self.refs[q]):
+                st = r.choice(styles or STYLES)
+                if st == "chain":
+                    mids = [x for x in self.paths if x not in (q, h) and mod_stem(x) and mod_stem(h)]
+                    if not mids:
+                        st = "use"
+                    else:
+                        mid = r.choice(mids)
+                        self.via[(q, h)] = mid
+                        if h not in self.extra_uses[mid]:
+                            self.extra_uses[mid].append(h)
+                if st == "use" and mod_stem(h) is None:
+                    st = "use_as"
+                self.style[(q, h)] = st
+                self.alias[(q, h)] = "al_%d" % r.randint(10, 99)
+        self.r = r
+
+    def name_of(self, x):
+        return x if isinstance(x, str) else self.n[x]
+
+    def prefix(self, frm, x):
+        """text that denotes global x (binder or type name) inside module frm"""
+        h = self.home.get(x)
+        nm = self.name_of(x)
+        if h is None or h == frm:
+            return nm
+        st = self.style[(frm, h)]
+        if st == "use":
+            return "%s.%s" % (mod_stem(h), nm)
+        if st == "use_as":
+            return "%s.%s" % (self.alias[(frm, h)], nm)
+        if st == "from":
+            return nm
+        if st == "from_as":
+            return nm + "_im"
+        if st == "chain":
+            mid = self.via[(frm, h)]
+            return "%s_v.%s.%s" % (self.alias[(frm, h)], mod_stem(h), nm)
+        raise ValueError(st)
+
+    def header(self, frm):
+        out = []
+        for h in sorted(self.refs[frm]):
+            st = self.style[(frm, h)]
+            path = use_path_text(self.r, frm, h)
+            if st == "use":
+                out.append("use %s" % path)
+            elif st == "use_as":
+                out.append("use %s as %s" % (path, self.alias[(frm, h)]))
+            elif st in ("from", "from_as"):
+                names = sorted(self.name_of(x) for x in self.refs[frm][h])
+                if st == "from":
+                    out.append("from %s use %s" % (path, ", ".join(names)))
+                else:
+                    out.append("from %s use (\n%s)" % (path, "".join("    %s as %s_im,\n" % (n, n) for n in names)))
+            elif st == "chain":
+                mid = self.via[(frm, h)]
+                out.append("use %s as %s_v" % (use_path_text(self.r, frm, mid), self.alias[(frm, h)]))
+        for h in self.extra_uses[frm]:
+            # (a second plain `use` of a module already imported with `use` would be rejected as a collision)
+            if not (h in self.refs[frm] and self.style[(frm, h)] == "use"):
+                out.append("use %s" % use_path_text(self.r, frm, h))
+        return "\n".join(out) + ("\n" if out else "")
+
+    def files(self):
+        out = {}
+        for q in self.paths:
+            rd = Render(self.n)
+            rd.name = lambda b, q=q: self.prefix(q, b)
+            rd.tyname = lambda nm, q=q: self.prefix(q, nm)
+            body = "\n".join(rd.item(it) for it in self.items[q])
+            out[q] = self.prelude + self.header(q) + body
+        return out
+
+
+def layouts(p, r, naming, k, prelude=""):
+    out = []
+    for _ in range(k):
+        out.append((Layout(p, r, naming, prelude=prelude).files(), "/main.sy"))
+    return out
+
+
+def permuted(p, r):
+    """the same program with its top-level items in another order (a shallow copy)"""
+    q = Prog()
+    q.binders = p.binders
+    q.items = list(p.items)
+    r.shuffle(q.items)
+    return q
+
+
+# ------------------------------------------------------------------------------------------------
+# small multi-file projects exercising every import form and every error site of the resolver's
+# namespace passes (collisions, missing names, namespaces used as values, chains, re-exports, cycles)
+
+def module_noise(r):
+    mods = ["/main.sy"] + r.sample(["/ma.sy", "/mb.sy", "/sub/mc.sy", "/sub/exports.sy"], r.randint(1, 3))
+    stems = {q: (mod_stem(q) or "root") for q in mods}
+    glob = {q: ["x%d" % i for i in range(r.randint(1, 3))] + (["T"] if r.random() < 0.4 else []) for q in mods}
+    files = {}
+    for q in mods:
+        lines = []
+        visible = []      # expressions that should resolve to an int global
+        others = [m for m in mods if m != q]
+        for _ in range(r.randint(0, 4)):
+            t = r.choice(others)
+            path = use_path_text(r, q, t)
+            k = r.random()
+            if k < 0.3:
+                if mod_stem(t) is None:
+                    lines.append("use %s as rt" % path)
+                    visible.append("rt." + r.choice(glob[t]))
+                else:
+                    lines.append("use %s" % path)
+                    visible.append("%s.%s" % (mod_stem(t), r.choice(glob[t] + ["nope"] * (r.random() < 0.1))))
+            elif k < 0.5:
+                al = r.choice(["al", "bl", "x0", stems[q], "T"])
+                lines.append("use %s as %s" % (path, al))
+                visible.append("%s.%s" % (al, r.choice(glob[t])))
+            elif k < 0.8:
+                nm = r.choice(glob[t] + ["nope"] * (r.random() < 0.15))
+                lines.append("from %s use %s" % (path, nm))
+                visible.append(nm)
+            else:
+                nm = r.choice(glob[t])
+                al = r.choice(["y0", "y1", "x0", "al"])
+                lines.append("from %s use %s as %s" % (path, nm, al))
+                visible.append(al)
+        if r.random() < 0.15 and others:
+            # chain through another module
+            t = r.choice(others)
+            if mod_stem(t):
+                visible.append("%s.%s.%s" % (mod_stem(t), r.choice(["ma", "mb", "mc", "al"]), "x0"))
+        for g in glob[q]:
+            if g == "T":
+                lines.append("T :: blob { a: int }")
+            else:
+                lines.append("%s :: %d" % (g, r.randint(0, 9)))
+        if r.random() < 0.1:
+            lines.append("%s :: 1" % r.choice(["x0", "al", "ma"]))      # possible duplicate / collision
+        body = []
+        for _ in range(r.randint(0, 4)):
+            k = r.random()
+            if k < 0.7 and visible:
+                body.append("    print(%s)" % r.choice(visible))
+            elif k < 0.8:
+                body.append("    print(%s)" % r.choice(["ma", "al", "undefined_name", "x0.a", "T"]))
+            elif k < 0.9:
+                body.append("    q: %s = nil" % r.choice(["T", "ma.T", "al.T", "x0", "ma.x0", "Nope", "ma.Nope", "ma"]))
+            else:
+                body.append("    v :: %s { a: 1 }\n    print(v.a)" % r.choice(["T", "ma.T", "al.T", "mc.T"]))
+        fname = "start" if q == "/main.sy" and r.random() < 0.9 else "helper"
+        lines.append("%s :: fn do\n%s\nend" % (fname, "\n".join(body)))
+        r.shuffle(lines)
+        files[q] = "\n".join(lines) + "\n"
+    return files, "/main.sy"
+
+
+def nsfield_cases(ctx, n, salt):
+    """DESIGN section 7 row 20: a parameter / local named like an imported namespace, used in field
+    position.  Pair: the parameter named `ma` (shadowing the namespace) vs a fresh name."""
+    out = []
+    for i in range(n):
+        r = vlib.rng(ctx.seed, "%s-nsfield-%d" % (salt, i))
+        fld = r.choice(["a", "val"])
+        other = "%s :: %d\n" % (fld, r.randint(100, 200)) if r.random() < 0.7 else "zz :: 1\n"
+        kind = r.choice(["param", "local", "casevar"])
+
+        def prog(nm):
+            if kind == "param":
+                body = "f :: fn %s: Pt -> int do\n    ret %s.%s\nend\n" % (nm, nm, fld)
+                call = "    print(f(Pt { %s: 1 }))\n" % fld
+            elif kind == "local":
+                body = "f :: fn -> int do\n    %s :: Pt { %s: 1 }\n    ret %s.%s\nend\n" % (nm, fld, nm, fld)
+                call = "    print(f())\n"
+            else:
+                body = ("Bx :: enum\n    W Pt,\nend\nf :: fn e: Bx -> int do\n    case e do\n        W %s -> do\n"
+                        "            ret %s.%s\n        end\n        else do\n        end\n    end\n    ret 0\nend\n"
+                        % (nm, nm, fld))
+                call = "    print(f((Bx.W (Pt { %s: 1 }))))\n" % fld
+            return ("use ma\nPt :: blob { %s: int }\n" % fld) + body + "start :: fn do\n" + call + "    print(ma.zq)\nend\n"
+        ma = other + "zq :: 3\n"
+        out.append({"kind": "files-pair", "cls": "nsfield", "nsfield": True, "leak": False,
+                    "a": {"/main.sy": prog("fresh_%d" % i), "/ma.sy": ma},
+                    "b": {"/main.sy": prog("ma"), "/ma.sy": ma}})
+    return out
+
+
+# ------------------------------------------------------------------------------------------------
+# projects for the module-discovery tie: many files, every use-path form, cycles, diamonds, missing
+# files, files with syntax errors or conflict markers, std names
+
+PROJ_PATHS = ["/p/main.sy", "/p/a.sy", "/p/b.sy", "/p/exports.sy", "/p/d/c.sy", "/p/d/exports.sy", "/p/d/e/f.sy",
+              "/p/d/e/exports.sy", "/p/g/h.sy", "/p/list.sy", "/p/d/math.sy"]
+
+
+def module_project(r, rel_main=False):
+    """-> (files, main, std, abstract) where abstract[path] = ('ok'|'bad'|'conflict', [use path texts])"""
+    n = r.randint(1, 6)
+    paths = ["/p/main.sy"] + r.sample(PROJ_PATHS[1:], n)
+    std = r.random() < 0.3
+    files = {}
+    abstract = {}
+    for q in paths:
+        uses = []
+        lines = []
+        kind = "ok"
+        x = r.random()
+        if q != "/p/main.sy" and x < 0.08:
+            kind = "bad"
+        elif q != "/p/main.sy" and x < 0.12:
+            kind = "conflict"
+        for _ in range(r.randint(0, 4)):
+            t = r.choice(paths + ["/p/missing.sy"] * (r.random() < 0.08))
+            path = use_path_text(r, q[len("/p"):], t[len("/p"):])
+            # paths are written relative to the project root /p: rooted paths start at /p
+            if r.random() < 0.15:
+                path = r.choice(["list", "math", "set", "/dict", "maybe/", "/common/"])
+            form = r.random()
+            if form < 0.5:
+                if path == "/":
+                    lines.append("use / as rt%d" % len(lines))
+                else:
+                    lines.append("use %s" % path)
+            elif form < 0.75:
+                lines.append("use %s as al%d" % (path, len(lines)))
+            else:
+                lines.append("from %s use x" % path)
+            uses.append(path)
+        if kind == "bad":
+            lines.insert(r.randint(0, len(lines)), ") ) )")
+        if kind == "conflict":
+            lines.insert(r.randint(0, len(lines)), "<<<<<<< HEAD")
+        lines.append("x :: 1")
+        if q == "/p/main.sy":
+            lines.append("start :: fn do\nend")
+        files[q] = "\n".join(lines) + "\n"
+        abstract[q] = (kind, uses)
+    return files, "/p/main.sy", std, abstract
+
+
+def perm_files(files, r):
+    """permute the top-level statements inside every file of a project made of one-statement-per-
+    paragraph sources (the layouts of this module separate items by blank lines)"""
+    out = {}
+    for q, s in files.items():
+        paras = [x for x in s.split("\n\n") if x.strip()]
+        r.shuffle(paras)
+        out[q] = "\n\n".join(paras) + "\n"
     return out
